@@ -2,10 +2,12 @@
 from vf.engine import assume, cover
 from vf.query import Q
 from vf import stubs
+from vf import instrument
 
 import io
 
-import ombott
+instrument.install("ombott")     # scheduling points in front of every ombott statement (used by the stmt/ family only)
+import ombott                    # noqa: E402
 
 PROPERTY = "C10"
 TECHNIQUE = ("bounded symbolic execution of Ombott.__call__ / ts_props accessors / Request.copy (CrossHair+z3) over symbolic "
@@ -26,10 +28,12 @@ FUNCTIONS = [
     "ombott.ombott:Ombott._handle", "ombott.ombott:Ombott.wsgi", "ombott.ombott:Ombott._cast",
     "ombott.common_helpers:HeaderDict.__init__",
 ]
-STUBS = ["SimLocal/SimThreads for `threading` inside ombott.common_helpers (arrangement 'threads' only)"]
+STUBS = ["SimLocal/SimThreads for `threading` inside ombott.common_helpers (arrangement 'threads' and family stmt/ only)",
+         "vf.instrument: ombott compiled from its current source with a scheduling point in front of every statement of "
+         "every function body (no-op except in family stmt/)"]
 ASSUMPTIONS = ["the reference 'A alone' is computed on a separate, freshly built application before the arrangement starts"]
 OUTSIDE = ["arrangements other than the enumerated ones", "request text longer than 2 code points / non-ASCII path text",
-           "thread preemption between two framework statements (see C08)"]
+           "thread switches inside one statement, non-LIFO interleavings (see C08)"]
 BUDGET_S = {"quick": 240, "thorough": 1000}
 
 STATUS = [200, 404]
@@ -350,6 +354,70 @@ def make_bodies(kind, threshold):
     return q
 
 
+# ---------------------------------------------------------------- another application in another thread, any statement
+class StmtSched:
+    """in front of statement k that thread T0 executes inside ombott (while application A serves), thread T1 serves a
+    whole request with another application"""
+
+    def __init__(self, k, B, envB):
+        self.k, self.B, self.envB = k, B, envB
+        self.count = 0
+        self.result = None
+
+    def __call__(self):
+        if stubs.SimThreads.cur != "T0":
+            return
+        self.count += 1
+        if self.count == self.k:
+            stubs.SimThreads.cur = "T1"
+            try:
+                self.result = call(self.B, self.envB)
+            finally:
+                stubs.SimThreads.cur = "T0"
+
+
+def stmt_run(kindB, k):
+    stubs.install_sim_threads()
+    obs = []
+    A = build_A(lambda A: None, obs, 404, "hv")
+    B = build_B()
+    envB = env_for("/b/y", "q=b", "cb", "hb")
+    if kindB == "json_error":
+        envB = dict(env_for("/nope/y", "q=b", "cb", "hb"), HTTP_ACCEPT="application/json")
+    st = StmtSched(k, B, envB)
+    instrument.set_hook(st)
+    try:
+        resA = call(A, env_for("/a/x", "q=1&r=%20", "v1", "hv1"))
+    finally:
+        instrument.set_hook(None)
+    return resA, obs, st
+
+
+def make_stmt(kindB):
+    refA, ref_obs, st0 = stmt_run(kindB, 0)
+    n0 = st0.count
+    refB = stmt_run(kindB, 1)[2].result               # B served before A's first statement: B alone, as far as B can tell
+    assert 0 < n0 < 2 ** 11 and refB is not None
+
+    def q(b0: bool, b1: bool, b2: bool, b3: bool, b4: bool, b5: bool, b6: bool, b7: bool, b8: bool, b9: bool, b10: bool):
+        k = 0
+        for i, b in enumerate((b0, b1, b2, b3, b4, b5, b6, b7, b8, b9, b10)):
+            if b:
+                k += 1 << i
+        assume(1 <= k <= n0)
+        resA, obs, st = stmt_run(kindB, k)
+        if st.result is None:
+            return "statement %d of %d not reached" % (k, n0)
+        cover("ok")
+        if resA != refA or obs != ref_obs:
+            return ("application B served a request in thread T1 in front of statement %d of %d of A's request: A answered %r "
+                    "and its handler saw %r; alone %r and %r" % (k, n0, resA, obs, refA, ref_obs))
+        if st.result != refB:
+            return "application B (thread T1, in front of statement %d of A's request) answered %r, alone %r" % (k, st.result, refB)
+        return None
+    return q, n0
+
+
 ARR = ["nested", "nested_json_error", "copy", "construct", "construct_request", "default_app", "default_outer",
        "default_outer_json_error", "alternating", "shared_errors_map", "status_phrase", "threads"]
 
@@ -362,6 +430,13 @@ def queries(tier):
                      "character): every ASCII letter or digit; A's cookie from %r, query string from %r, status written from %r; "
                      "B's request derived from A's" % (a, COOKIES, QUERIES, STATUS),
                      timeout=200 if tier == "quick" else 600, per_path_timeout=40, expect_cover=["ok"], family="arrangement"))
+    for kindB in ("ok", "json_error"):
+        fn, n0 = make_stmt(kindB)
+        out.append(Q("stmt/%s" % kindB, fn,
+                     "application A serves a concrete request in thread T0; in front of statement k of the ombott code it "
+                     "executes (every k in 1..%d; scheduling points inserted from the current source) application B serves a "
+                     "%s request in simulated thread T1" % (n0, "routed" if kindB == "ok" else "404 (JSON client)"),
+                     timeout=500, per_path_timeout=40, expect_cover=["ok"], family="stmt", config={"statements": n0}))
     for kind in ("raw", "upload"):
         th = 8 if kind == "raw" else len(MP_HEAD) + len(MP_TAIL) + 5
         out.append(Q("bodies/%s" % kind, make_bodies(kind, th),
